@@ -9,10 +9,10 @@ from .common import exec_case, rng_for, crash_sig, chunks, fmt_outcome, same_out
 
 RULE = ("numeric literals from boundary sets (0, +-1, +-2^31, +-2^53+-1, i64/u64 limits, neighbours and one past "
         "each limit) written as decimal, 0x hex, signed, u/U-suffixed and as double literals (plain, exponent, "
-        "leading dot), plus random 64-bit patterns in every form; conversions int() uint() double() string() "
+        "leading dot, zero-padded to 17 / 21 / 40 digits in mantissa and exponent), plus random 64-bit patterns in every form; conversions int() uint() double() string() "
         "bytes() in both call styles on boundary values of every numeric kind, doubles at +-2^63 / +-2^64 and their "
         "neighbours, NaN, +-inf, subnormals, -0.0, number strings and malformed strings; round trips "
-        "int(string(i)), uint(string(u)), double(string(d)) (bit-exact), string(bytes(s)); oracle: Python ints / "
+        "int(string(i)), uint(string(u)), double(string(d)) (bit-exact), string(bytes(s)) / bytes(string(b)) over texts incl. BOM-leading, non-characters, line separators and long non-ASCII; oracle: Python ints / "
         "floats; non-trivial = literal / argument within 2 of a type limit, beyond 2^53, or non-finite; distinct "
         "= distinct source + context")
 ASSUMPTIONS = ["doubles in (-1, 0) converted to uint, non-canonical number strings (+5, -0, spaces, 0x10) and "
